@@ -32,6 +32,9 @@ def write(pid, mod, tier, seed, merged, wall, known_hits, n_unknown, reasons):
         "violations": int(n_unknown),
     }
     d = os.path.join(env.HOME, "evidence")
+    if env.REPO != "/repo":
+        # self-validation runs against a scratch tree never overwrite the committed evidence
+        d = os.path.join(os.environ.get("TMPDIR", "/tmp"), "cmv-scratch-evidence")
     os.makedirs(d, exist_ok=True)
     path = os.path.join(d, f"{pid}.json")
     tmp = path + ".tmp"
